@@ -7,7 +7,7 @@ import Uft.Model.Argbuf
    FILL <hexbyte>                                     -> ok      (memory := constant)
    E <k> <machine tokens>   /   X <k> <machine tokens>
         -> res=<ok|toobig|oob> total=<n> hi=<n> pay=<hex|none> mem=<hex of [4, 2048) without trailing fill> otext=<hex>
-      machine tokens: r=<h,…> x=<h,…> s=<h,…> sok=<0|1> rv=<h> fp=<h> st0=<h> str=<addr>:<hex|->;… obj=<addr>:<data>;…
+      machine tokens: r=<h,…> x=<h,…> s=<h,…> sok=<0|1> rv=<h> fp=<h> st0=<h> str=<addr>:<hex|->;… obj=<addr>:<data>;… reg=<start>:<end>;…  (mapped readable regions)
    REC <time> <type> <depth> <hexaddr> <hex|none>     -> hex of recordBytes
    PARSE <k> <E|X> <hex>                              -> data=<hex> rest=<n> text=<hex>   |  fail
    DECODE <hex>                                       -> time:type:depth:addr:<hex|none> …  | fail
@@ -62,6 +62,11 @@ def parseMachine (ws : List String) : Option Machine :=
           | [a, h] => match parseHexNat a, parseHexBytes h with
             | some a, some bs => some (a, bs) | _, _ => none
           | _ => none) v ";").map fun l => { m with strs := l }
+      | ["reg", v] =>
+        (parseList (fun e => match e.splitOn ":" with
+          | [a, d] => match parseHexNat a, parseHexNat d with
+            | some a, some d => some (a, d) | _, _ => none
+          | _ => none) v ";").map fun l => { m with regions := l }
       | ["obj", v] =>
         (parseList (fun e => match e.splitOn ":" with
           | [a, d] => match parseHexNat a, parseHexNat d with
